@@ -8,7 +8,7 @@ SAFE/FAST pairs are both driven and compared with each other.  Everything is wor
 
 No main(): the maintainer's c05.py combines jobs() of this module with c05_pp.jobs().
 """
-import ctypes, math, os, signal
+import ctypes, math, os, re, signal, tempfile
 from collections import Counter
 from ..core import Harness
 
@@ -367,3 +367,1572 @@ def below(rng, m, n, bw, kind=None, nz=False):
         v = 1 % m
         k = "1"
     return k, v
+
+
+# ----------------------------------------------------------------------------------------------
+# signatures: kind:name[:size expression]   kinds: i input array, o output array, x in/out array,
+# z size_t, w word, I int, s scratch stack (size in octets).  Sizes are in words; the expressions see
+# the case's scalar arguments, L = the library (for _deep), W = octets per word.
+# ----------------------------------------------------------------------------------------------
+
+SPEC = {
+    # ww.h
+    "wwCopy": ("v", "o:b:n i:a:n z:n"),
+    "wwSwap": ("v", "x:a:n x:b:n z:n"),
+    "wwEq": ("b", "i:a:n i:b:n z:n"),
+    "wwCmp": ("i", "i:a:n i:b:n z:n"),
+    "wwCmp2": ("i", "i:a:n z:n i:b:m z:m"),
+    "wwCmpW": ("i", "i:a:n z:n w:w"),
+    "wwXor": ("v", "o:c:n i:a:n i:b:n z:n"),
+    "wwXor2": ("v", "x:b:n i:a:n z:n"),
+    "wwSetZero": ("v", "o:a:n z:n"),
+    "wwSetW": ("v", "o:a:n z:n w:w"),
+    "wwRepW": ("v", "o:a:n z:n w:w"),
+    "wwIsZero": ("b", "i:a:n z:n"),
+    "wwIsW": ("b", "i:a:n z:n w:w"),
+    "wwIsRepW": ("b", "i:a:n z:n w:w"),
+    "wwWordSize": ("z", "i:a:n z:n"),
+    "wwOctetSize": ("z", "i:a:n z:n"),
+    "wwTestBit": ("b", "i:a:n z:pos"),
+    "wwGetBits": ("w", "i:a:n z:pos z:width"),
+    "wwSetBit": ("v", "x:a:n z:pos I:val"),
+    "wwSetBits": ("v", "x:a:n z:pos z:width w:val"),
+    "wwFlipBit": ("v", "x:a:n z:pos"),
+    "wwLoZeroBits": ("z", "i:a:n z:n"),
+    "wwHiZeroBits": ("z", "i:a:n z:n"),
+    "wwBitSize": ("z", "i:a:n z:n"),
+    "wwNAF": ("z", "o:naf:2*n+1 i:a:n z:n z:w"),
+    "wwShLo": ("v", "x:a:n z:n z:shift"),
+    "wwShLoCarry": ("w", "x:a:n z:n z:shift w:carry"),
+    "wwShHi": ("v", "x:a:n z:n z:shift"),
+    "wwShHiCarry": ("w", "x:a:n z:n z:shift w:carry"),
+    "wwTrimLo": ("v", "x:a:n z:n z:pos"),
+    "wwTrimHi": ("v", "x:a:n z:n z:pos"),
+    # zz.h: additive, multiplicative
+    "zzIsEven": ("b", "i:a:n z:n"),
+    "zzIsOdd": ("b", "i:a:n z:n"),
+    "zzAdd": ("w", "o:c:n i:a:n i:b:n z:n"),
+    "zzAdd2": ("w", "x:b:n i:a:n z:n"),
+    "zzAdd3": ("w", "o:c:max(n,m) i:a:n z:n i:b:m z:m"),
+    "zzAddW": ("w", "o:b:n i:a:n z:n w:w"),
+    "zzAddW2": ("w", "x:a:n z:n w:w"),
+    "zzIsSumEq": ("b", "i:c:n i:a:n i:b:n z:n"),
+    "zzIsSumWEq": ("b", "i:b:n i:a:n z:n w:w"),
+    "zzSub": ("w", "o:c:n i:a:n i:b:n z:n"),
+    "zzSub2": ("w", "x:b:n i:a:n z:n"),
+    "zzSubW": ("w", "o:b:n i:a:n z:n w:w"),
+    "zzSubW2": ("w", "x:a:n z:n w:w"),
+    "zzNeg": ("v", "o:b:n i:a:n z:n"),
+    "zzMulW": ("w", "o:b:n i:a:n z:n w:w"),
+    "zzAddMulW": ("w", "x:b:n i:a:n z:n w:w"),
+    "zzSubMulW": ("w", "x:b:n i:a:n z:n w:w"),
+    "zzMul": ("v", "o:c:n+m i:a:n z:n i:b:m z:m s:L.zzMul_deep(n,m)"),
+    "zzSqr": ("v", "o:b:2*n i:a:n z:n s:L.zzSqr_deep(n)"),
+    # zzSqrt_deep() is too small on the current tree (counts words as octets): value cases use a
+    # sufficient stack, the declared size is exercised by unit_probe
+    "zzSqrt": ("b", "o:b:(n+1)//2 i:a:n z:n s:max(L.zzSqrt_deep(n),W*(2*((n+1)//2)+1)+L.zzDiv_deep(n,(n+1)//2))"),
+    "zzDivW": ("w", "o:q:n i:a:n z:n w:w"),
+    "zzModW": ("w", "i:a:n z:n w:w"),
+    "zzModW2": ("w", "i:a:n z:n w:w"),
+    "zzDiv": ("v", "o:q:n-m+1 o:r:m i:a:n z:n i:b:m z:m s:L.zzDiv_deep(n,m)"),
+    "zzMod": ("v", "o:r:m i:a:n z:n i:b:m z:m s:L.zzMod_deep(n,m)"),
+    # gcd family
+    "zzGCD": ("v", "o:d:min(n,m) i:a:n z:n i:b:m z:m s:L.zzGCD_deep(n,m)"),
+    "zzIsCoprime": ("b", "i:a:n z:n i:b:m z:m s:L.zzIsCoprime_deep(n,m)"),
+    "zzLCM": ("v", "o:d:n+m i:a:n z:n i:b:m z:m s:L.zzLCM_deep(n,m)"),
+    "zzExGCD": ("v", "o:d:min(n,m) o:da:m o:db:n i:a:n z:n i:b:m z:m s:L.zzExGCD_deep(n,m)"),
+    "zzJacobi": ("i", "i:a:n z:n i:b:m z:m s:L.zzJacobi_deep(n,m)"),
+    # modular
+    "zzAddMod": ("v", "o:c:n i:a:n i:b:n i:mod:n z:n"),
+    "zzAddWMod": ("v", "o:b:n i:a:n w:w i:mod:n z:n"),
+    "zzSubMod": ("v", "o:c:n i:a:n i:b:n i:mod:n z:n"),
+    "zzSubWMod": ("v", "o:b:n i:a:n w:w i:mod:n z:n"),
+    "zzNegMod": ("v", "o:b:n i:a:n i:mod:n z:n"),
+    "zzMulMod": ("v", "o:c:n i:a:n i:b:n i:mod:n z:n s:L.zzMulMod_deep(n)"),
+    "zzMulWMod": ("v", "o:b:n i:a:n w:w i:mod:n z:n s:L.zzMulWMod_deep(n)"),
+    "zzSqrMod": ("v", "o:b:n i:a:n i:mod:n z:n s:L.zzSqrMod_deep(n)"),
+    "zzInvMod": ("v", "o:b:n i:a:n i:mod:n z:n s:L.zzInvMod_deep(n)"),
+    "zzDivMod": ("v", "o:b:n i:divident:n i:a:n i:mod:n z:n s:L.zzDivMod_deep(n)"),
+    "zzDoubleMod": ("v", "o:b:n i:a:n i:mod:n z:n"),
+    "zzHalfMod": ("v", "o:b:n i:a:n i:mod:n z:n"),
+    "zzAlmostInvMod": ("z", "o:b:n i:a:n i:mod:n z:n s:L.zzAlmostInvMod_deep(n)"),
+    # reductions
+    "zzRed": ("v", "x:a:2*n i:mod:n z:n s:L.zzRed_deep(n)"),
+    "zzRedCrand": ("v", "x:a:2*n i:mod:n z:n s:L.zzRedCrand_deep(n)"),
+    "zzRedBarrStart": ("v", "o:barr_param:n+2 i:mod:n z:n s:L.zzRedBarrStart_deep(n)"),
+    "zzRedBarr": ("v", "x:a:2*n i:mod:n z:n i:barr_param:n+2 s:L.zzRedBarr_deep(n)"),
+    "zzRedMont": ("v", "x:a:2*n i:mod:n z:n w:mont_param s:L.zzRedMont_deep(n)"),
+    "zzRedCrandMont": ("v", "x:a:2*n i:mod:n z:n w:mont_param s:L.zzRedCrandMont_deep(n)"),
+    # powers.  zzPowerMod_deep() omits zmCreate_keep() on the current tree: value cases use a sufficient
+    # stack, the declared size is exercised by unit_probe
+    "zzPowerMod": ("v", "o:c:n i:a:n z:n i:b:m z:m i:mod:n "
+                        "s:max(L.zzPowerMod_deep(n,m),W*n+L.zmCreate_keep(W*n)+max(L.zmCreate_deep(W*n),"
+                        "L.qrPower_deep(n,m,L.zmCreate_deep(W*n)))+W*(8*n+16))"),
+    "zzPowerModW": ("w", "w:a w:b w:mod s:L.zzPowerModW_deep()"),
+}
+# the same two functions with exactly the declared stack (unit_probe)
+SPEC["zzSqrt@deep"] = ("b", "o:b:(n+1)//2 i:a:n z:n s:L.zzSqrt_deep(n)")
+SPEC["zzPowerMod@deep"] = ("v", "o:c:n i:a:n z:n i:b:m z:m i:mod:n s:L.zzPowerMod_deep(n,m)")
+
+
+class Args(dict):
+    __getattr__ = dict.__getitem__
+
+
+def _cmp(a, b):
+    return (a > b) - (a < b)
+
+
+def _shr(a, s):
+    return 0 if s >= a.bit_length() else a >> s
+
+
+def _shl(a, s, nbits):
+    return 0 if s >= nbits else (a << s) & ((1 << nbits) - 1)
+
+
+def _rep(w, n, bw):
+    return sum(w << (bw * i) for i in range(n))
+
+
+def _bn(A, n):
+    return 1 << (A.bw * n)
+
+
+def R(**kw):
+    return kw
+
+
+def _o_shlo_carry(A):
+    nb = A.bw * A.n
+    X = A.a | (A.carry << nb)
+    if A.shift >= nb + 2 * A.bw:
+        return R(ret=0, a=0)
+    return R(ret=((X << A.bw) >> A.shift) % A.B, a=(X >> A.shift) % (1 << nb))
+
+
+def _o_shhi_carry(A):
+    nb = A.bw * A.n
+    if A.shift >= nb + 2 * A.bw:
+        return R(ret=0, a=0)
+    Y = ((A.a << A.bw) | A.carry) << A.shift
+    return R(ret=(Y >> (nb + A.bw)) % A.B, a=(Y >> A.bw) % (1 << nb))
+
+
+def _o_setbits(A):
+    mask = (1 << A.width) - 1
+    return R(a=(A.a & ~(mask << A.pos)) | ((A.val & mask) << A.pos))
+
+
+def _o_naf(A):
+    d = naf_digits(A.a, A.w)
+    return R(ret=len(d), naf=naf_encode(d, A.w))
+
+
+def _o_exgcd(A):
+    g = math.gcd(A.a, A.b)
+
+    def rel(ret, outs):
+        if outs["da"] * A.a - outs["db"] * A.b != g:
+            return "bezout", "da*a - db*b != gcd(a,b)"
+    return R(d=g, da=None, db=None, _rel=rel)
+
+
+def _o_inv(A, num=1):
+    if math.gcd(A.a, A.mod) != 1:
+        return R(b=0)                                   # \remark: gcd(a, mod) != 1 => b <- 0
+    return R(b=num * pow(A.a, -1, A.mod) % A.mod, _lt={"b": A.mod})
+
+
+def _o_almost(A):
+    l = A.mod.bit_length()
+    g = math.gcd(A.a, A.mod)
+
+    def rel(ret, outs):
+        if g == 1 and not l <= ret <= 2 * l:
+            return "ret", "k outside [bitsize(mod), 2 bitsize(mod)]"
+        if g == 1 and outs["b"] != pow(A.a, -1, A.mod) * pow(2, ret, A.mod) % A.mod:
+            return "value", "b != a^-1 2^k mod mod"
+    return R(b=(0 if g != 1 else None), _rel=rel, _lt={"b": A.mod})
+
+
+def _o_red(A, mont=False):
+    R_ = _bn(A, A.n)
+    v = (A.a * pow(R_, -1, A.mod) if mont else A.a) % A.mod
+    return {"a": v, "_low": {"a": A.n}, "_lt": {"a": A.mod}}
+
+
+ORACLE = {
+    "wwCopy": lambda A: R(b=A.a),
+    "wwSwap": lambda A: R(a=A.b, b=A.a),
+    "wwEq": lambda A: R(ret=int(A.a == A.b)),
+    "wwCmp": lambda A: R(ret=_cmp(A.a, A.b)),
+    "wwCmp2": lambda A: R(ret=_cmp(A.a, A.b)),
+    "wwCmpW": lambda A: R(ret=_cmp(A.a, A.w)),
+    "wwXor": lambda A: R(c=A.a ^ A.b),
+    "wwXor2": lambda A: R(b=A.a ^ A.b),
+    "wwSetZero": lambda A: R(a=0),
+    "wwSetW": lambda A: R(a=A.w),
+    "wwRepW": lambda A: R(a=_rep(A.w, A.n, A.bw)),
+    "wwIsZero": lambda A: R(ret=int(A.a == 0)),
+    "wwIsW": lambda A: R(ret=int(A.a == A.w)),
+    "wwIsRepW": lambda A: R(ret=int(A.a == _rep(A.w, A.n, A.bw) and (A.n > 0 or A.w == 0))),
+    "wwWordSize": lambda A: R(ret=-(-A.a.bit_length() // A.bw)),
+    "wwOctetSize": lambda A: R(ret=(A.a.bit_length() + 7) // 8),
+    "wwTestBit": lambda A: R(ret=(A.a >> A.pos) & 1),
+    "wwGetBits": lambda A: R(ret=(A.a >> A.pos) & ((1 << A.width) - 1)),
+    "wwSetBit": lambda A: R(a=(A.a & ~(1 << A.pos)) | (A.val << A.pos)),
+    "wwSetBits": _o_setbits,
+    "wwFlipBit": lambda A: R(a=A.a ^ (1 << A.pos)),
+    "wwLoZeroBits": lambda A: R(ret=ctz(A.a, A.bw * A.n)),
+    "wwHiZeroBits": lambda A: R(ret=A.bw * A.n - A.a.bit_length()),
+    "wwBitSize": lambda A: R(ret=A.a.bit_length()),
+    "wwNAF": _o_naf,
+    "wwShLo": lambda A: R(a=_shr(A.a, A.shift)),
+    "wwShLoCarry": _o_shlo_carry,
+    "wwShHi": lambda A: R(a=_shl(A.a, A.shift, A.bw * A.n)),
+    "wwShHiCarry": _o_shhi_carry,
+    "wwTrimLo": lambda A: R(a=A.a & ~((1 << min(A.pos, A.bw * A.n)) - 1)),
+    "wwTrimHi": lambda A: R(a=A.a & ((1 << A.pos) - 1) if A.pos < A.bw * A.n else A.a),
+
+    "zzIsEven": lambda A: R(ret=int(A.a % 2 == 0)),
+    "zzIsOdd": lambda A: R(ret=A.a % 2),
+    "zzAdd": lambda A: R(ret=(A.a + A.b) // _bn(A, A.n), c=(A.a + A.b) % _bn(A, A.n)),
+    "zzAdd2": lambda A: R(ret=(A.a + A.b) // _bn(A, A.n), b=(A.a + A.b) % _bn(A, A.n)),
+    "zzAdd3": lambda A: R(ret=(A.a + A.b) // _bn(A, max(A.n, A.m)), c=(A.a + A.b) % _bn(A, max(A.n, A.m))),
+    "zzAddW": lambda A: R(ret=(A.a + A.w) // _bn(A, A.n), b=(A.a + A.w) % _bn(A, A.n)),
+    "zzAddW2": lambda A: R(ret=(A.a + A.w) // _bn(A, A.n), a=(A.a + A.w) % _bn(A, A.n)),
+    "zzIsSumEq": lambda A: R(ret=int(A.a + A.b == A.c)),
+    "zzIsSumWEq": lambda A: R(ret=int(A.a + A.w == A.b)),
+    "zzSub": lambda A: R(ret=int(A.a < A.b), c=(A.a - A.b) % _bn(A, A.n)),
+    "zzSub2": lambda A: R(ret=int(A.b < A.a), b=(A.b - A.a) % _bn(A, A.n)),
+    "zzSubW": lambda A: R(ret=int(A.a < A.w), b=(A.a - A.w) % _bn(A, A.n)),
+    "zzSubW2": lambda A: R(ret=int(A.a < A.w), a=(A.a - A.w) % _bn(A, A.n)),
+    "zzNeg": lambda A: R(b=(_bn(A, A.n) - A.a) % _bn(A, A.n)),
+    "zzMulW": lambda A: R(ret=(A.a * A.w) // _bn(A, A.n), b=(A.a * A.w) % _bn(A, A.n)),
+    "zzAddMulW": lambda A: R(ret=(A.b + A.a * A.w) // _bn(A, A.n), b=(A.b + A.a * A.w) % _bn(A, A.n)),
+    "zzSubMulW": lambda A: R(ret=int(A.b < A.a * A.w), b=(A.b - A.a * A.w) % _bn(A, A.n)),
+    "zzMul": lambda A: R(c=A.a * A.b),
+    "zzSqr": lambda A: R(b=A.a * A.a),
+    "zzSqrt": lambda A: R(ret=int(math.isqrt(A.a) ** 2 == A.a), b=math.isqrt(A.a)),
+    "zzDivW": lambda A: R(ret=A.a % A.w, q=A.a // A.w),
+    "zzModW": lambda A: R(ret=A.a % A.w),
+    "zzModW2": lambda A: R(ret=A.a % A.w),
+    "zzDiv": lambda A: R(q=A.a // A.b, r=A.a % A.b, _lt={"r": A.b}),
+    "zzMod": lambda A: R(r=A.a % A.b, _lt={"r": A.b}),
+    "zzGCD": lambda A: R(d=math.gcd(A.a, A.b)),
+    "zzIsCoprime": lambda A: R(ret=int(math.gcd(A.a, A.b) == 1)),
+    "zzLCM": lambda A: R(d=A.a * A.b // math.gcd(A.a, A.b)),
+    "zzExGCD": _o_exgcd,
+    "zzJacobi": lambda A: R(ret=jacobi(A.a, A.b)),
+    "zzAddMod": lambda A: R(c=(A.a + A.b) % A.mod, _lt={"c": A.mod}),
+    "zzAddWMod": lambda A: R(b=(A.a + A.w) % A.mod, _lt={"b": A.mod}),
+    "zzSubMod": lambda A: R(c=(A.a - A.b) % A.mod, _lt={"c": A.mod}),
+    "zzSubWMod": lambda A: R(b=(A.a - A.w) % A.mod, _lt={"b": A.mod}),
+    "zzNegMod": lambda A: R(b=-A.a % A.mod, _lt={"b": A.mod}),
+    "zzMulMod": lambda A: R(c=A.a * A.b % A.mod, _lt={"c": A.mod}),
+    "zzMulWMod": lambda A: R(b=A.a * A.w % A.mod, _lt={"b": A.mod}),
+    "zzSqrMod": lambda A: R(b=A.a * A.a % A.mod, _lt={"b": A.mod}),
+    "zzInvMod": _o_inv,
+    "zzDivMod": lambda A: _o_inv(A, A.divident),
+    "zzDoubleMod": lambda A: R(b=2 * A.a % A.mod, _lt={"b": A.mod}),
+    "zzHalfMod": lambda A: R(b=A.a * pow(2, -1, A.mod) % A.mod if A.mod > 1 else 0, _lt={"b": A.mod}),
+    "zzAlmostInvMod": _o_almost,
+    "zzRed": _o_red,
+    "zzRedCrand": _o_red,
+    "zzRedBarrStart": lambda A: R(barr_param=_bn(A, 2 * A.n) // A.mod),
+    "zzRedBarr": _o_red,
+    "zzRedMont": lambda A: _o_red(A, True),
+    "zzRedCrandMont": lambda A: _o_red(A, True),
+    "zzPowerMod": lambda A: {"c": pow(A.a, A.b, A.mod), "_lt": {"c": A.mod}},
+    "zzPowerModW": lambda A: {"ret": pow(A.a, A.b, A.mod), "_ltret": A.mod},
+}
+ORACLE["zzSqrt@deep"] = ORACLE["zzSqrt"]
+ORACLE["zzPowerMod@deep"] = ORACLE["zzPowerMod"]
+
+# aliasing the headers allow: tuples of (x, y) = "x is passed the same pointer as y"
+_C_AB = [(), (("c", "a"),), (("c", "b"),), (("b", "a"),), (("c", "a"), ("b", "a"))]
+_B_A = [(), (("b", "a"),)]
+ALIAS = {
+    "wwCopy": _B_A, "wwXor": _C_AB, "wwXor2": _B_A,
+    "wwEq": [(), (("b", "a"),)], "wwCmp": [(), (("b", "a"),)],
+    "zzAdd": _C_AB, "zzSub": _C_AB, "zzAdd2": _B_A, "zzSub2": _B_A,
+    "zzAdd3": [(), (("c", "a"),), (("c", "b"),)],
+    "zzAddW": _B_A, "zzSubW": _B_A, "zzNeg": _B_A, "zzMulW": _B_A, "zzAddMulW": _B_A, "zzSubMulW": _B_A,
+    "zzIsSumEq": [(), (("b", "a"),), (("c", "a"),)],
+    "zzMul": [(), (("b", "a"),)],
+    "zzDivW": [(), (("q", "a"),)], "zzDiv": [(), (("r", "a"),)], "zzMod": [(), (("r", "a"),)],
+    "zzGCD": [(), (("b", "a"),)], "zzLCM": [(), (("b", "a"),)], "zzIsCoprime": [(), (("b", "a"),)],
+    "zzExGCD": [(), (("b", "a"),)],
+    "zzAddMod": _C_AB, "zzSubMod": _C_AB, "zzAddWMod": _B_A, "zzSubWMod": _B_A, "zzNegMod": _B_A,
+    "zzDoubleMod": _B_A, "zzHalfMod": _B_A, "zzMulMod": [(), (("b", "a"),)],
+}
+
+ORACLE["zzSubMulW"] = lambda A: R(
+    ret=int(A.b < A.a * A.w), b=(A.b - A.a * A.w) % _bn(A, A.n),
+    # the multi-word meaning of the borrow word (cf. the identity stated for zzSub): checked separately so that
+    # a wrong borrow word is seen even where the header's flag formula is not met
+    _rel=lambda ret, outs: None if outs["b"] - ret * _bn(A, A.n) == A.b - A.a * A.w else
+    ("borrow-identity", "b' - borrow*B^n != b - a*w"))
+
+
+# ----------------------------------------------------------------------------------------------
+# executor
+# ----------------------------------------------------------------------------------------------
+
+class T:
+    MAX_EMIT = 3
+
+    def __init__(self, ctx):
+        self.ctx = ctx
+        self.lib = lib = ctx.lib
+        self.W = lib.W
+        self.bw = 8 * lib.W
+        self.B = 1 << self.bw
+        self.ns = {"L": lib, "W": lib.W, "min": min, "max": max, "__builtins__": {}}
+        self.specs = {}
+        self.fn = Counter()
+        self.sub = Counter()
+        self.vcount = Counter()
+        self.thorough = ctx.tier == "thorough"
+        self.chunk = int(ctx.params.get("chunk", 0))
+        self.lens = LENS + ([32, 64] if self.thorough else [])
+
+    def length(self, i):
+        return self.lens[(i + 5 * self.chunk) % len(self.lens)]
+
+    def spec(self, name):
+        s = self.specs.get(name)
+        if s is None:
+            ret, sig = SPEC[name]
+            items = []
+            for tok in sig.split():
+                p = tok.split(":", 2) if tok[0] != "s" else ["s", "stack", tok[2:]]
+                items.append((p[0], p[1], compile(p[2], "<spec %s>" % name, "eval") if len(p) > 2 and p[2] else None))
+            s = self.specs[name] = (ret, items)
+        return s
+
+    # -- one real call -------------------------------------------------------------------
+    def call(self, libname, specname, A, alias=()):
+        """returns (ret, {name: int} for o/x arrays, [names of pure inputs that changed])"""
+        lib, W = self.lib, self.W
+        ret_kind, items = self.spec(specname)
+        rep = {}
+        for x, y in alias:
+            rep[x] = rep.get(y, y)
+        sizes, gsize, gval, gout = {}, {}, {}, set()
+        for kind, name, code in items:
+            if kind in "iox":
+                sz = sizes[name] = eval(code, self.ns, A)
+                if sz < 0:
+                    raise Harness("negative size for %s.%s" % (specname, name))
+                g = rep.get(name, name)
+                if sz > gsize.get(g, -1):
+                    gsize[g] = sz
+                if kind != "o":
+                    v = A[name]
+                    if g in gval and gval[g] != (v, sz):
+                        raise Harness("aliased inputs differ: %s.%s" % (specname, name))
+                    gval[g] = (v, sz)
+                if kind != "i":
+                    gout.add(g)
+        ptr, orig = {}, {}
+        for g, sz in gsize.items():
+            if g in gval:
+                v, nv = gval[g]
+                try:
+                    data = v.to_bytes(nv * W, "little")
+                except OverflowError:
+                    raise Harness("generator: %s.%s does not fit %d words" % (specname, g, nv))
+                if sz > nv:
+                    data += bytes([lib.fill]) * ((sz - nv) * W)
+                ptr[g] = lib.mk(data)
+                if g not in gout:
+                    orig[g] = data
+            else:
+                ptr[g] = lib.alloc(sz * W)
+        args = []
+        for kind, name, code in items:
+            if kind in "iox":
+                args.append(ptr[rep.get(name, name)])
+            elif kind == "s":
+                args.append(lib.alloc(eval(code, self.ns, A)))
+            else:
+                args.append(A[name])
+        ret = getattr(lib, libname)(*args)
+        outs = {}
+        for kind, name, code in items:
+            if kind in "ox":
+                outs[name] = lib.rdw(ptr[rep.get(name, name)], sizes[name])
+        changed = [g for g, data in orig.items() if lib.rd(ptr[g], len(data)) != data]
+        if ret_kind == "v":
+            ret = None
+        return ret, outs, changed
+
+    def isolated(self, libname, specname, A, alias=(), seconds=20):
+        """the same call in a forked child under alarm(): ('ok', (ret, outs, changed)) or (reason, stderr text) with
+        reason = 'hang' | 'assert:<file>' | 'asan:<kind>' | 'died:<status>'.  Used where the library is known to abort
+        or never return on admissible input, so that one such case does not cost a worker restart."""
+        r, w = os.pipe()
+        errf = tempfile.TemporaryFile()
+        pid = os.fork()
+        if pid == 0:
+            try:
+                os.close(r)
+                os.dup2(errf.fileno(), 2)
+                signal.signal(signal.SIGALRM, signal.SIG_DFL)
+                signal.alarm(seconds)
+                res = self.call(libname, specname, A, alias)
+                os.write(w, repr(res).encode())
+            finally:
+                os._exit(0)
+        os.close(w)
+        data = b""
+        while True:
+            c = os.read(r, 1 << 16)
+            if not c:
+                break
+            data += c
+        os.close(r)
+        _, status = os.waitpid(pid, 0)
+        errf.seek(0)
+        err = errf.read().decode(errors="replace")
+        errf.close()
+        self.lib.release()
+        if data:
+            return "ok", eval(data.decode(), {"__builtins__": {}})
+        if os.WIFSIGNALED(status) and os.WTERMSIG(status) == signal.SIGALRM:
+            return "hang", err
+        m = re.search(r"Assertion in (\S+?)::(\d+)", err)
+        if m:
+            return "assert:" + os.path.basename(m.group(1)), err
+        m = re.search(r"ERROR: AddressSanitizer: ([\w-]+)", err)
+        if m:
+            return "asan:" + m.group(1), err
+        return "died:%d" % status, err
+
+    # -- verdicts ------------------------------------------------------------------------
+    def violation(self, key, what, detail):
+        self.vcount[key] += 1
+        if self.vcount[key] <= self.MAX_EMIT:
+            self.ctx.violation(key, what, detail)
+
+    def judge(self, libname, A, exp, ret, outs, changed, tag):
+        bad = []
+
+        def flag(cat, what, **kw):
+            key = "%s:%s%s" % (libname, cat, ":" + tag if tag else "")
+            d = {"args": {k: (hex(v) if isinstance(v, int) else v) for k, v in A.items()}, "W": self.W}
+            d.update({k: (hex(v) if isinstance(v, int) and not isinstance(v, bool) and v >= 0 else v) for k, v in kw.items()})
+            self.violation(key, "%s: %s" % (libname, what), d)
+            bad.append(cat)
+        er = exp.get("ret")
+        lt = exp.get("_ltret")
+        if lt is not None and ret >= lt and (ret - er) % lt == 0:
+            flag("not-reduced", "returned residue is congruent to the right value but not below the modulus",
+                 expected=er, got=ret, mod=lt)
+        elif er is not None and ret != er:
+            flag("ret", "return value differs from the header formula", expected=er, got=ret)
+        low = exp.get("_low", {})
+        lts = exp.get("_lt", {})
+        for name, ev in exp.items():
+            if name[0] == "_" or name == "ret" or ev is None:
+                continue
+            got = outs[name]
+            if name in low:
+                got %= 1 << (self.bw * low[name])
+            m = lts.get(name)
+            if m is not None and got >= m and (got - ev) % m == 0:
+                flag("not-reduced", "output %s is congruent to the right value but not below the modulus" % name,
+                     expected=ev, got=got, mod=m)
+            elif got != ev:
+                flag("value", "output %s differs from the header formula" % name, expected=ev, got=got)
+        for name, m in lts.items():
+            if exp.get(name) is None and name in outs and outs[name] >= m:
+                flag("not-reduced", "output %s is not below the modulus" % name, got=outs[name], mod=m)
+        rel = exp.get("_rel")
+        if rel is not None:
+            r = rel(ret, outs)
+            if r:
+                flag(r[0], r[1], ret=ret, outs={k: hex(v) for k, v in outs.items()})
+        if changed:
+            flag("input-modified", "const input buffer(s) %s changed" % changed)
+        return bad
+
+    def drive(self, fname, A, cls, alias=(), keycls=None, spec=None, isolate=0):
+        """one case: regular edition (and fast edition) of fname on arguments A; isolate = watchdog seconds when the
+        call has to run in a forked child"""
+        ctx = self.ctx
+        spec = spec or fname
+        _, items = self.spec(spec)
+        kinds = {name: kind for kind, name, _ in items}
+        for x, y in alias:
+            if kinds.get(x) != "o" and y in A:
+                A[x] = A[y]
+        al = ",".join("%s=%s" % p for p in alias)
+        desc = [spec, al, {k: (format(v, "x") if isinstance(v, int) else v) for k, v in A.items()}]
+        if not ctx.case(desc, cls):
+            return None
+        self.fn[fname] += 1
+        if al:
+            self.sub["alias:" + al] += 1
+        if "n" in A:
+            self.sub["n=%d" % A["n"]] += 1
+        AA = Args(A)
+        AA["bw"], AA["B"] = self.bw, self.B
+        exp = ORACLE[spec](AA)
+        tag = ",".join(x for x in (keycls, al) if x)
+        res = []
+        names = (fname, fname + "_fast") if fname in PAIRS else (fname,)
+        for nm in names:
+            if isolate:
+                st, r = self.isolated(nm, spec, A, alias, isolate)
+                if st != "ok":
+                    what = {"hang": "does not return within %d s" % isolate}.get(st, "kills the process (%s)" % st)
+                    self.violation("%s:%s%s" % (nm, st.split(":")[0] if st.startswith("died") else st, ":" + tag if tag else ""),
+                                   "%s %s on admissible arguments" % (nm, what),
+                                   {"args": desc[2], "W": self.W, "status": st, "stderr": r[:1200]})
+                    ctx.digest(st)
+                    return None
+                ret, outs, changed = r
+            else:
+                ret, outs, changed = self.call(nm, spec, A, alias)
+            self.judge(nm, A, exp, ret, outs, changed, tag)
+            res.append((ret, outs))
+            self.lib.release()
+        if len(res) == 2:
+            (r0, o0), (r1, o1) = res
+            lw = exp.get("_low", {})
+            same = r0 == r1 and all((o0[k] - o1[k]) % (1 << (self.bw * lw[k])) == 0 if k in lw else o0[k] == o1[k]
+                                    for k in o0 if exp.get(k) is not None)
+            if not same:
+                self.violation("%s:safe-vs-fast%s" % (fname, ":" + tag if tag else ""),
+                               "%s and %s_fast disagree" % (fname, fname),
+                               {"args": desc[2], "regular": [r0, {k: hex(v) for k, v in o0.items()}],
+                                "fast": [r1, {k: hex(v) for k, v in o1.items()}], "W": self.W})
+            ctx.count(1)
+        r0, o0 = res[0]
+        ctx.digest(r0, *[o0[k] % (1 << (self.bw * exp["_low"][k])) if k in exp.get("_low", {}) else o0[k]
+                         for k in sorted(o0) if exp.get(k) is not None])
+        return res[0]
+
+    def pick_alias(self, fname, i, ok=lambda al: True):
+        als = [al for al in ALIAS.get(fname, [()]) if ok(al)]
+        return als[(i // len(self.lens)) % len(als)]
+
+    def finish(self):
+        self.ctx.note("c05zz_cases_per_function", dict(self.fn))
+        self.ctx.note("c05zz_lengths_and_aliasing", dict(self.sub))
+        if self.vcount:
+            self.ctx.note("c05zz_violating_cases_per_key", dict(self.vcount))
+
+
+# ----------------------------------------------------------------------------------------------
+# u16 / u32 / u64
+# ----------------------------------------------------------------------------------------------
+
+def _u_oracles(bits):
+    M = (1 << bits) - 1
+    return {
+        "Rev": lambda w: int.from_bytes(w.to_bytes(bits // 8, "little"), "big"),
+        "Bitrev": lambda w: bitrev(w, bits),
+        "Weight": lambda w: bin(w).count("1"),
+        "Parity": lambda w: bin(w).count("1") & 1,
+        "CTZ": lambda w: ctz(w, bits),
+        "CLZ": lambda w: bits - w.bit_length(),
+        "Shuffle": lambda w: shuffle(w, bits),
+        "Deshuffle": lambda w: deshuffle(w, bits),
+        "NegInv": lambda w: (-pow(w, -1, M + 1)) & M,
+    }
+
+
+def _u_class(w, bits):
+    if w == 0:
+        return "0"
+    if w == (1 << bits) - 1:
+        return "max"
+    if w & (w - 1) == 0:
+        return "single-bit"
+    if (w ^ ((1 << bits) - 1)) & ((w ^ ((1 << bits) - 1)) - 1) == 0:
+        return "single-zero-bit"
+    return "other"
+
+
+def _u_scalar(t, bits, w, orc, fns):
+    """all scalar helpers of one width on one input; returns number of library calls"""
+    lib, ctx = t.lib, t.ctx
+    pfx = "u%d" % bits
+    if not ctx.case([pfx, format(w, "x")], "%s/%s" % (pfx, _u_class(w, bits))):
+        return
+    got = []
+    calls = 0
+    for f in fns:
+        if f == "NegInv" and w % 2 == 0:
+            continue                                        # \pre w odd
+        e = orc[f](w)
+        names = (pfx + f, pfx + f + "_fast") if pfx + f in PAIRS else (pfx + f,)
+        rs = []
+        for nm in names:
+            r = getattr(lib, nm)(w)
+            calls += 1
+            rs.append(r)
+            if r != e:
+                t.violation("%s:value" % nm, "%s differs from the header's definition" % nm,
+                            {"w": hex(w), "expected": e, "got": r})
+        if len(rs) == 2 and rs[0] != rs[1]:
+            t.violation("%s:safe-vs-fast" % (pfx + f), "regular and fast editions disagree", {"w": hex(w), "got": rs})
+        got.append(rs[0])
+        t.fn[pfx + f] += 1
+    ctx.digest(*got)
+    ctx.count(calls - 1)
+
+
+def _u_arrays(t, bits, count_cases):
+    """uNNRev2 / uNNFrom / uNNTo on exact-size buffers, octet counts that are not multiples of the word size"""
+    lib, ctx, rng = t.lib, t.ctx, t.ctx.rng
+    o = bits // 8
+    pfx = "u%d" % bits
+    for i in range(count_cases):
+        cnt = (i + 3 * t.chunk) % 42 if i % 7 else rng.choice((0, 1, o - 1, o, o + 1, 64, 65, 100))
+        data = bytes(rng.getrandbits(8) for _ in range(cnt)) if i % 5 else bytes(rng.choice((0, 0xFF, 0x80, 1)) for _ in range(cnt))
+        nw = (cnt + o - 1) // o
+        tail = bytes(rng.getrandbits(8) for _ in range(nw * o - cnt))
+        words = bytes(rng.getrandbits(8) for _ in range(o * (i % 23)))
+        nwords = i % 23
+        # From
+        cls = "%s/array-%s" % (pfx, "aligned" if cnt % o == 0 else "partial-word")
+        if ctx.case([pfx + "From", cnt, data], cls):
+            src, dest = lib.mk(data), lib.alloc(nw * o)
+            getattr(lib, pfx + "From")(dest, src, cnt)
+            got = lib.rd(dest, nw * o)
+            if int.from_bytes(got, "little") != int.from_bytes(data, "little") or lib.rd(src, cnt) != data:
+                t.violation(pfx + "From:value", "words do not hold the octets little-endian with a zero-padded last word",
+                            {"count": cnt, "src": data.hex(), "dest": got.hex()})
+            ctx.digest(got)
+            lib.release()
+            t.fn[pfx + "From"] += 1
+        # To
+        if ctx.case([pfx + "To", cnt, data + tail], cls):
+            src, dest = lib.mk(data + tail), lib.alloc(cnt)
+            getattr(lib, pfx + "To")(dest, cnt, src)
+            got = lib.rd(dest, cnt)
+            if got != data or lib.rd(src, nw * o) != data + tail:
+                t.violation(pfx + "To:value", "octets are not the little-endian image of the words",
+                            {"count": cnt, "src": (data + tail).hex(), "dest": got.hex()})
+            ctx.digest(got)
+            lib.release()
+            t.fn[pfx + "To"] += 1
+        # Rev2
+        if ctx.case([pfx + "Rev2", nwords, words], "%s/array-rev" % pfx):
+            buf = lib.mk(words)
+            getattr(lib, pfx + "Rev2")(buf, nwords)
+            got = lib.rd(buf, len(words))
+            e = b"".join(words[j:j + o][::-1] for j in range(0, len(words), o))
+            if got != e:
+                t.violation(pfx + "Rev2:value", "octets of each word are not reversed", {"count": nwords, "buf": words.hex(), "got": got.hex()})
+            ctx.digest(got)
+            lib.release()
+            t.fn[pfx + "Rev2"] += 1
+
+
+U_FNS = ("Rev", "Bitrev", "Weight", "Parity", "CTZ", "CLZ", "Shuffle", "Deshuffle", "NegInv")
+
+
+def unit_u16(ctx):
+    """complete enumeration of the 16-bit helpers (step > 1 only when scale < 1) + array conversions"""
+    selftest()
+    t = T(ctx)
+    p = ctx.params
+    orc = _u_oracles(16)
+    for w in range(p["chunk"] * p.get("step", 1), 65536, p["chunks"] * p.get("step", 1)):
+        _u_scalar(t, 16, w, orc, U_FNS)
+    _u_arrays(t, 16, p["arrays"])
+    if p.get("step", 1) == 1:
+        ctx.note("c05zz_u16_exhaustive", True)
+    t.finish()
+
+
+def u_values(rng, bits, nrandom):
+    M = (1 << bits) - 1
+    vals = [0, 1, 2, 3, M, M - 1, M >> 1, (M >> 1) + 1]
+    vals += [1 << i for i in range(bits)] + [M ^ (1 << i) for i in range(bits)]
+    vals += [(1 << i) - 1 for i in range(2, bits)] + [M ^ ((1 << i) - 1) for i in range(2, bits)]
+    for pat in (0x55, 0xAA, 0x0F, 0xF0, 0x33, 0xCC, 0x01, 0x80, 0xFF00FF00FF00FF00, 0x00FF00FF00FF00FF,
+                0xFFFF0000FFFF0000, 0x0000FFFF0000FFFF, 0xFFFFFFFF00000000, 0x00000000FFFFFFFF, 0x0123456789ABCDEF):
+        v = pat if pat > 0xFF else int.from_bytes(bytes([pat]) * 8, "little")
+        vals.append(v & M)
+    for _ in range(nrandom):
+        k = rng.randrange(4)
+        if k == 0:
+            v = rng.getrandbits(bits)
+        elif k == 1:
+            v = rng.getrandbits(rng.randrange(1, bits + 1))            # leading zeros
+        elif k == 2:
+            v = (rng.getrandbits(bits) << rng.randrange(bits)) & M   # trailing zeros
+        else:
+            v = rng.getrandbits(bits) | 1                            # odd (NegInv)
+        vals.append(v)
+    return vals
+
+
+def unit_uNN(ctx):
+    """u32 / u64 helpers: boundary catalogue + random; array conversions"""
+    selftest()
+    t = T(ctx)
+    bits = ctx.params["bits"]
+    orc = _u_oracles(bits)
+    for w in u_values(ctx.rng, bits, ctx.params["random"]):
+        _u_scalar(t, bits, w, orc, U_FNS)
+    _u_arrays(t, bits, ctx.params["arrays"])
+    t.finish()
+
+
+# ----------------------------------------------------------------------------------------------
+# ww.h
+# ----------------------------------------------------------------------------------------------
+
+WW_FNS = ("wwCopy", "wwSwap", "wwEq", "wwCmp", "wwCmp2", "wwCmpW", "wwXor", "wwXor2", "wwSetZero", "wwSetW",
+          "wwRepW", "wwIsZero", "wwIsW", "wwIsRepW", "wwWordSize", "wwOctetSize", "wwTestBit", "wwGetBits",
+          "wwSetBit", "wwSetBits", "wwFlipBit", "wwLoZeroBits", "wwHiZeroBits", "wwBitSize", "wwNAF", "wwShLo",
+          "wwShLoCarry", "wwShHi", "wwShHiCarry", "wwTrimLo", "wwTrimHi")
+
+
+def _related(rng, a, n, bw):
+    """(label, b): a second n-word operand related to a"""
+    k = rng.randrange(6)
+    if n == 0:
+        return "equal", 0
+    if k == 0:
+        return "equal", a
+    if k == 1:
+        return "differ-top-word", a ^ (1 << (bw * (n - 1) + rng.randrange(bw)))
+    if k == 2:
+        return "differ-low-word", a ^ (1 << rng.randrange(bw))
+    if k == 3:
+        return "differ-one-bit", a ^ (1 << rng.randrange(bw * n))
+    if k == 4:
+        return "words-crossed", (a ^ (1 << (bw * n - 1))) ^ 1                # top says one thing, bottom another
+    return "independent", val(rng, n, bw)[1]
+
+
+def _bitpos(rng, n, bw, width=1):
+    """a bit position whose last touched word is word max(n,1)-1, biased to word boundaries"""
+    base = bw * (max(n, 1) - 1)
+    off = rng.choice((0, 1, bw // 2, bw - 2, bw - 1, rng.randrange(bw)))
+    return base + off
+
+
+def _shift(rng, n, bw):
+    nb = n * bw
+    c = (0, 1, bw - 1, bw, bw + 1, bw * rng.randrange(0, n + 3), nb - 1 if nb else 0, nb, nb + 1, nb + bw - 1, nb + bw,
+         nb + bw + 1, nb + 2 * bw - 1, nb + 2 * bw, nb + 2 * bw + 1, 1 << 32, (1 << 64) - 1, rng.randrange(nb + 2 * bw + 1),
+         rng.randrange(nb + 1), rng.randrange(nb + 1))
+    return rng.choice(c)
+
+
+def gen_ww(t, f, n, i):
+    rng, bw, B = t.ctx.rng, t.bw, t.B
+    la, a = val(rng, n, bw)
+    cls = "ww/" + la
+    A = {"a": a, "n": n}
+    if f in ("wwSwap", "wwXor", "wwXor2"):
+        A["b"] = val(rng, n, bw)[1]
+    elif f in ("wwEq", "wwCmp"):
+        lb, A["b"] = _related(rng, a, n, bw)
+        cls = "ww/cmp-" + lb
+    elif f == "wwCmp2":
+        m = rng.choice(t.lens)
+        k = min(n, m)
+        lv, v = val(rng, k, bw)
+        s = rng.randrange(5)
+        hi = 0 if s < 2 or n == m else 1 << (bw * rng.randrange(k, max(n, m)) + rng.randrange(bw))
+        a, b = (v | hi, v) if n > m else (v, v | hi)
+        if s == 3 and k:
+            a ^= 1 << rng.randrange(bw * k)
+        if s == 4:
+            a, b = val(rng, n, bw)[1], val(rng, m, bw)[1]
+        A = {"a": a, "n": n, "b": b, "m": m}
+        cls = "ww/cmp2-" + ("equal-padded" if a == b else "high-words-nonzero" if hi else "differ")
+    elif f in ("wwCmpW", "wwIsW"):
+        w = word(rng, bw)
+        s = rng.randrange(6)
+        if n:
+            a = (w, (w + 1) % B, (w - 1) % B, w | (1 << (bw * rng.randrange(n) + rng.randrange(bw))),
+                 w | (1 << (bw * n - 1)), a)[s]
+        A = {"a": a, "n": n, "w": w}
+        cls = "ww/w-" + ("equal" if a == w else "high-words-nonzero" if a >= B else "differ")
+    elif f == "wwIsRepW":
+        w = word(rng, bw)
+        s = rng.randrange(4)
+        r = _rep(w, n, bw)
+        if n:
+            a = (r, r, r ^ (1 << rng.randrange(bw * n)), a)[s]
+        A = {"a": a, "n": n, "w": w}
+        cls = "ww/rep-" + ("equal" if a == r else "differ")
+    elif f in ("wwSetW", "wwRepW"):
+        A = {"n": n, "w": word(rng, bw) if n else 0}                        # \pre n > 0 or w == 0
+        cls = "ww/set"
+    elif f == "wwSetZero":
+        A = {"n": n}
+        cls = "ww/set"
+    elif f in ("wwTestBit", "wwSetBit", "wwFlipBit"):
+        pos = _bitpos(rng, n, bw)
+        nn = pos // bw + 1
+        a = val(rng, nn, bw)[1]
+        A = {"a": a, "n": nn, "pos": pos}
+        if f == "wwSetBit":
+            A["val"] = rng.randrange(2)
+        cls = "ww/bit-" + ("word-boundary" if pos % bw in (0, bw - 1) else "inner")
+    elif f in ("wwGetBits", "wwSetBits"):
+        pos = _bitpos(rng, n, bw)
+        width = rng.choice((0, 1, 2, bw // 2, bw - 1, bw, bw, rng.randrange(bw + 1)))
+        if width == 0 and pos % bw == 0:
+            width = 1          # width 0 at a word boundary reads a[W_OF_B(pos)]: unit_probe holds that case
+        nn = (pos + width + bw - 1) // bw
+        a = val(rng, nn, bw)[1]
+        A = {"a": a, "n": nn, "pos": pos, "width": width}
+        if f == "wwSetBits":
+            A["val"] = word(rng, bw)
+        cls = "ww/bits-" + ("straddle" if pos % bw + width > bw else "width=0" if width == 0 else
+                            "full-word" if width == bw else "inner")
+        return A, cls, ("width=0" if width == 0 else "straddle" if pos % bw + width > bw else None)
+    elif f == "wwNAF":
+        A["w"] = rng.choice((2, 2, 3, 4, 5, 6, 7, 8, bw // 2, bw - 2, bw - 1, rng.randrange(2, bw)))
+        cls = "ww/naf-" + la
+    elif f in ("wwShLo", "wwShHi", "wwShLoCarry", "wwShHiCarry"):
+        A["shift"] = s = _shift(rng, n, bw)
+        if f.endswith("Carry"):
+            A["carry"] = word(rng, bw)
+        cls = "ww/shift-" + ("0" if s == 0 else "lt-word" if s < bw else "word-multiple" if s % bw == 0 and s <= (n + 2) * bw
+                             else "inside" if s < n * bw else "beyond-length")
+    elif f in ("wwTrimLo", "wwTrimHi"):
+        A["pos"] = s = _shift(rng, n, bw)
+        cls = "ww/trim-" + ("word-boundary" if s % bw == 0 else "inside" if s < n * bw else "beyond-length")
+    return A, cls, None
+
+
+def unit_ww(ctx):
+    selftest()
+    t = T(ctx)
+    for f in WW_FNS:
+        for i in range(ctx.params["per"]):
+            n = t.length(i)
+            A, cls, keycls = gen_ww(t, f, n, i)
+            al = t.pick_alias(f, i)
+            t.drive(f, A, cls, al, keycls)
+    t.finish()
+
+
+# ----------------------------------------------------------------------------------------------
+# zz.h: additive and multiplicative operations, division by a word
+# ----------------------------------------------------------------------------------------------
+
+ZZ_ADD_FNS = ("zzIsEven", "zzIsOdd", "zzAdd", "zzAdd2", "zzAdd3", "zzAddW", "zzAddW2", "zzIsSumEq", "zzIsSumWEq",
+              "zzSub", "zzSub2", "zzSubW", "zzSubW2", "zzNeg", "zzMulW", "zzAddMulW", "zzSubMulW", "zzMul", "zzSqr",
+              "zzDivW", "zzModW", "zzModW2")
+
+
+def _pair(rng, n, bw):
+    """(label, a, b): two n-word operands, biased to extreme carry / borrow chains"""
+    top = 1 << (bw * n)
+    la, a = val(rng, n, bw)
+    k = rng.randrange(9)
+    if k == 0:
+        return "b=a", a, a
+    if k == 1:
+        return "a+b=B^n-1", a, top - 1 - a
+    if k == 2:
+        return "a+b=B^n", a, (top - a) % top
+    if k == 3:
+        return "b=a+1", a, (a + 1) % top
+    if k == 4:
+        return "b=a-1", a, (a - 1) % top
+    if k == 5:
+        return "a+b=B^n+1", a, (top + 1 - a) % top
+    return la, a, val(rng, n, bw)[1]
+
+
+def gen_zz_add(t, f, n, i):
+    rng, bw, B = t.ctx.rng, t.bw, t.B
+    top = 1 << (bw * n)
+    if f in ("zzIsEven", "zzIsOdd", "zzNeg", "zzSqr"):
+        la, a = val(rng, n, bw)
+        return {"a": a, "n": n}, "zz_add/" + la, None
+    if f in ("zzAdd", "zzAdd2", "zzSub", "zzSub2"):
+        lp, a, b = _pair(rng, n, bw)
+        return {"a": a, "b": b, "n": n}, "zz_add/" + lp, None
+    if f == "zzAdd3":
+        m = rng.choice(t.lens)
+        la, a = val(rng, n, bw)
+        lb, b = val(rng, m, bw)
+        s = rng.randrange(4)
+        if s == 0:                                                           # carry runs through the longer operand
+            N = max(n, m)
+            full = (1 << (bw * N)) - 1
+            if n >= m:
+                a, b = full - b, b
+            else:
+                a, b = a, full - a
+            if rng.randrange(2) and min(n, m):
+                if n >= m:
+                    b = (b + 1) % (1 << (bw * m)) or b
+                else:
+                    a = (a + 1) % (1 << (bw * n)) or a
+            la = "carry-through-longer"
+        return {"a": a, "n": n, "b": b, "m": m}, "zz_add/" + la, None
+    if f in ("zzAddW", "zzAddW2", "zzSubW", "zzSubW2", "zzMulW"):
+        la, a = val(rng, n, bw)
+        w = word(rng, bw)
+        s = rng.randrange(6)
+        if s == 0 and n:
+            a, la = top - 1, "B^n-1"
+        elif s == 1 and n:
+            a, la = (top - w) % top, "a=B^n-w"
+        elif s == 2 and n:
+            a, la = w % top, "a=w"
+        elif s == 3 and n:
+            a, la = (w - 1) % top, "a=w-1"
+        return {"a": a, "n": n, "w": w}, "zz_add/" + la, ("n=0" if n == 0 and f in ("zzSubW", "zzSubW2") else None)
+    if f == "zzIsSumEq":
+        lp, a, b = _pair(rng, n, bw)
+        s = rng.randrange(5)
+        c = (a + b) % top if n else 0
+        if s == 1 and n:
+            c ^= 1 << rng.randrange(bw * n)
+        elif s == 2 and n:
+            c = val(rng, n, bw)[1]
+        elif s == 3 and n:                                                   # make the sum fit: TRUE cases
+            a >>= 1
+            b >>= 1
+            c = a + b
+        cl = "true" if a + b == c else "carry-lost" if (a + b) % top == c else "false"
+        return {"c": c, "a": a, "b": b, "n": n}, "zz_add/sumeq-" + cl, None
+    if f == "zzIsSumWEq":
+        la, a = val(rng, n, bw)
+        w = word(rng, bw)
+        s = rng.randrange(5)
+        if s == 0 and n:
+            a = top - 1 - rng.randrange(3)
+        b = (a + w) % top if n else 0
+        if s == 1 and n:
+            b ^= 1 << rng.randrange(bw * n)
+        elif s == 2:
+            b = val(rng, n, bw)[1]
+        cl = "true" if a + w == b else "carry-lost" if n and (a + w) % top == b else "false"
+        return {"b": b, "a": a, "n": n, "w": w}, "zz_add/sumeq-" + cl, None
+    if f in ("zzAddMulW", "zzSubMulW"):
+        lp, a, b = _pair(rng, n, bw)
+        w = word(rng, bw)
+        s = rng.randrange(5)
+        if s == 0 and n:
+            a, b, w, lp = top - 1, top - 1, B - 1, "max-carry"
+        elif s == 1 and n:
+            b, lp = a * w % top, "b=a*w mod B^n"
+        elif s == 2 and n:
+            a, b, lp = a >> bw, min((a >> bw) * w, top - 1), "b=a*w"
+        return {"b": b, "a": a, "n": n, "w": w}, "zz_add/" + lp, ("borrow-word>1" if f == "zzSubMulW" and a * w - b > top else None)
+    if f == "zzMul":
+        m = rng.choice(t.lens)
+        la, a = val(rng, n, bw)
+        lb, b = val(rng, m, bw)
+        return {"a": a, "n": n, "b": b, "m": m}, "zz_add/mul-" + la, None
+    if f in ("zzDivW", "zzModW"):
+        la, a = val(rng, n, bw)
+        w = word(rng, bw, nz=True)
+        s = rng.randrange(5)
+        if s == 0 and n:
+            q = val(rng, n, bw)[1] // w
+            a, la = min(q * w + (w - 1), top - 1), "a=q*w+(w-1)"
+        elif s == 1 and n:
+            a, la = val(rng, n, bw)[1] // w * w, "a=q*w"
+        return {"a": a, "n": n, "w": w}, "zz_add/" + la, None
+    if f == "zzModW2":
+        h = 1 << (bw // 2)
+        la, a = val(rng, n, bw)
+        w = rng.choice((1, 2, 3, 5, 255, h - 1, h, h, h - 1, rng.randrange(1, h + 1), rng.randrange(1, h + 1)))   # w^2 <= B
+        return {"a": a, "n": n, "w": w}, "zz_add/" + la, ("w=sqrt(B)" if w == h else None)
+    raise Harness("no generator for " + f)
+
+
+def unit_zz_add(ctx):
+    selftest()
+    t = T(ctx)
+    for f in ZZ_ADD_FNS:
+        for i in range(ctx.params["per"]):
+            n = t.length(i)
+            A, cls, keycls = gen_zz_add(t, f, n, i)
+            al = t.pick_alias(f, i, lambda al: "m" not in A or A["m"] == A["n"] or al in ((), (("c", "a"),), (("c", "b"),)))
+            t.drive(f, A, cls, al, keycls)
+    t.finish()
+
+
+# ----------------------------------------------------------------------------------------------
+# zz.h: general division, square root
+# ----------------------------------------------------------------------------------------------
+
+def _divisor(rng, m, bw):
+    """(label, b): m-word divisor with non-zero top word"""
+    B = 1 << bw
+    k = rng.randrange(8)
+    topw = (1, 2, B // 2 - 1, B // 2, B // 2 + 1, B - 1, 1 + rng.getrandbits(bw) % (B - 1), B // 2)[k]
+    low = special_words(rng, m - 1, bw) if rng.randrange(2) else rng.getrandbits(bw * (m - 1)) if m > 1 else 0
+    if k == 7:
+        low = (1 << (bw * (m - 1))) - 1 if rng.randrange(2) else 0
+    lab = "b-normalised" if topw >= B // 2 else "b-top-word-small" if topw <= 2 else "b-not-normalised"
+    return lab, (topw << (bw * (m - 1))) | low
+
+
+def _dividend(rng, b, n, m, bw):
+    """(label, a): n-word dividend (n >= m) aimed at the quotient-digit estimation / correction branches"""
+    top = 1 << (bw * n)
+    k = rng.randrange(12)
+    qmax = (top - 1) // b
+    if k == 0:
+        q = min(val(rng, n - m + 1, bw)[1], (top - b) // b)
+        return "a=q*b+(b-1)", q * b + b - 1
+    if k == 1:
+        return "a=q*b", min(val(rng, n - m + 1, bw)[1], qmax) * b
+    if k == 2:
+        return "q-all-ones", min((1 << (bw * (n - m + 1))) - 1, qmax) * b + rng.randrange(b)
+    if k == 3:
+        return "top-words-equal", (b << (bw * (n - m))) | rng.getrandbits(bw * (n - m))
+    if k == 4:
+        return "top-words-equal-minus", max(((b << (bw * (n - m))) | rng.getrandbits(bw * (n - m))) - (1 << (bw * (n - m))) * rng.randrange(1, 3), 0)
+    if k == 5:
+        return "a<b", rng.randrange(b)
+    if k == 6:
+        return "a=b+-1", min(b + rng.randrange(-1, 2), top - 1)
+    if k == 7:
+        return "special-words", special_words(rng, n, bw)
+    if k == 8:
+        q = min(special_words(rng, n - m + 1, bw), qmax)
+        return "q-special-words", min(q * b + rng.choice((0, 1, b - 1, b // 2)), top - 1)
+    if k == 9:
+        return "B^n-1", top - 1
+    return val(rng, n, bw)
+
+
+def gen_zz_div(t, f, n, i):
+    rng, bw = t.ctx.rng, t.bw
+    if f == "zzSqrt":
+        top = 1 << (bw * n)
+        k = rng.randrange(7)
+        x = min(val(rng, (n + 1) // 2, bw)[1], math.isqrt(top - 1))
+        if k == 0:
+            la, a = "x^2", x * x
+        elif k == 1:
+            la, a = "x^2-1", max(x * x - 1, 0)
+        elif k == 2:
+            la, a = "x^2+1", min(x * x + 1, top - 1)
+        elif k == 3:
+            la, a = "(x+1)^2-1", min(x * x + 2 * x, top - 1)
+        else:
+            la, a = val(rng, n, bw)
+        return {"a": a, "n": n}, "zz_div/sqrt-" + la, None
+    if f == "zzDiv":
+        n = max(n, 1)
+        m = rng.choice((1, 1, 2, n, n, max(n - 1, 1), max(n // 2, 1), rng.randrange(1, n + 1), rng.randrange(1, n + 1)))
+        m = min(m, n)                                                        # \pre n >= m > 0
+    else:
+        m = rng.choice((1, 2, max(n, 1), max(n, 1), n + 1, max(n - 1, 1), rng.randrange(1, 22), rng.randrange(1, 22)))
+    lb, b = _divisor(rng, m, bw)
+    if n >= m:
+        la, a = _dividend(rng, b, n, m, bw)
+    else:
+        la, a = val(rng, n, bw)
+        la = "n<m"
+    sh = "m=1" if m == 1 else "n=m" if n == m else "n<m" if n < m else "n>m"
+    t.sub["div-shape:" + sh] += 1
+    t.sub["div:" + lb] += 1
+    return {"a": a, "n": n, "b": b, "m": m}, "zz_div/" + la, None
+
+
+def unit_zz_div(ctx):
+    selftest()
+    t = T(ctx)
+    for f in ("zzDiv", "zzMod", "zzSqrt"):
+        for i in range(ctx.params["per"]):
+            n = t.length(i)
+            A, cls, keycls = gen_zz_div(t, f, n, i)
+            t.drive(f, A, cls, t.pick_alias(f, i), keycls)
+    t.finish()
+
+
+# ----------------------------------------------------------------------------------------------
+# zz.h: gcd family, Jacobi symbol
+# ----------------------------------------------------------------------------------------------
+
+_FIB = [1, 1]
+
+
+def _fib_below(limit):
+    """largest k with F_k < limit, list extended on demand"""
+    while _FIB[-1] < limit:
+        _FIB.append(_FIB[-1] + _FIB[-2])
+    lo, hi = 1, len(_FIB) - 1
+    while lo < hi:
+        mid = (lo + hi + 1) // 2
+        if _FIB[mid] < limit:
+            lo = mid
+        else:
+            hi = mid - 1
+    return lo
+
+
+def _nz(rng, n, bw):
+    la, v = val(rng, n, bw)
+    return (la, v) if v else ("1", 1)
+
+
+def gen_zz_gcd(t, f, n, i):
+    rng, bw = t.ctx.rng, t.bw
+    zero_ok = f == "zzIsCoprime"
+    if f == "zzJacobi":
+        m = max(rng.choice((1, 2, n, n, n, n + 1, max(n - 1, 1), rng.randrange(1, 22))), 1)
+        k = rng.randrange(8)
+        if k == 0 and m * bw <= 256:
+            ps = primes_for(m, bw)
+            lb, b = "b-prime", ps[rng.randrange(len(ps))]
+        elif k == 1:
+            lb, b = "b-small-in-long-buffer", rng.choice((1, 3, 5, 7, 9, 15, 255, (1 << bw) - 1))
+        else:
+            lb, b = modulus(rng, m, bw, odd=True)
+            lb = "b-" + lb
+        s = rng.randrange(9)
+        top = 1 << (bw * n)
+        la, a = val(rng, n, bw)
+        if s == 0:
+            la, a = "a=k*b", (rng.randrange(4) * b) % top if b < top else 0
+        elif s == 1:
+            la, a = "a=b-1", (b - 1) % top
+        elif s == 2:
+            la, a = "a=x^2 mod b", pow(val(rng, m, bw)[1], 2, b) % top
+        elif s == 3:
+            la, a = "a=2^k", (1 << rng.randrange(bw * n)) if n else 0
+        nb = -(-b.bit_length() // bw)
+        keycls = "n<m" if n < nb else None
+        t.sub["jacobi:" + ("n<size(b)" if n < nb else "n=size(b)" if n == nb else "n>size(b)")] += 1
+        return {"a": a, "n": n, "b": b, "m": m}, "zz_gcd/jacobi-" + (la if s < 4 else lb), keycls
+    if zero_ok:
+        m = rng.choice(t.lens)
+    else:
+        n = max(n, 1)
+        m = max(rng.choice((1, n, n, n + 1, max(n - 1, 1), rng.randrange(1, 22))), 1)
+    ta, tb = 1 << (bw * n), 1 << (bw * m)
+    k = rng.randrange(10)
+    la, a = _nz(rng, n, bw) if n else ("0", 0)
+    lb, b = _nz(rng, m, bw) if m else ("0", 0)
+    lab = "independent"
+    if k == 0 and n and m:
+        lab, b = "equal", a % tb or 1
+        a = b if b < ta else a
+    elif k == 1 and n and m:
+        lab, a, b = "powers-of-two", 1 << rng.randrange(bw * n), 1 << rng.randrange(bw * m)
+    elif k == 2 and n and m:
+        j = _fib_below(min(ta, tb))
+        j = max(2, j - rng.randrange(3))
+        lab = "fibonacci"
+        a, b = (_FIB[j], _FIB[j - 1]) if rng.randrange(2) else (_FIB[j - 1], _FIB[j])
+    elif k == 3 and n and m:
+        g = val(rng, min(n, m), bw)[1] >> rng.randrange(1, bw * min(n, m)) or 1
+        g <<= rng.randrange(0, 70) if g.bit_length() + 70 < bw * min(n, m) else 0
+        x = max(rng.randrange(ta // g + 1), 1)
+        y = max(rng.randrange(tb // g + 1), 1)
+        lab, a, b = "common-factor", min(g * x, ta - 1), min(g * y, tb - 1)
+    elif k == 4 and n and m:
+        lab, a = "a=k*b", min(b * max(rng.randrange(ta // b + 1), 1), ta - 1) if b < ta else a
+    elif k == 5 and n and m:
+        lab, a = "one", 1
+    elif k == 6 and n and m:
+        g = math.gcd(a, b)
+        lab, a, b = "coprime", a // g, b // g
+    elif k == 7 and zero_ok:
+        lab = "zero"
+        if rng.randrange(2):
+            a = 0
+        else:
+            b = 0
+        if rng.randrange(4) == 0:
+            a = b = 0
+    elif k == 8 and n and m:
+        lab, a, b = "B^n-1", ta - 1, tb - 1
+    keycls = None
+    if f == "zzExGCD":
+        sh = ctz(a | b, 1 << 30)
+        keycls = "min(a,b)/2^s=1" if min(a >> sh, b >> sh) == 1 else None
+    return {"a": a, "n": n, "b": b, "m": m}, "zz_gcd/" + lab, keycls
+
+
+def unit_zz_gcd(ctx):
+    selftest()
+    t = T(ctx)
+    for f in ("zzGCD", "zzIsCoprime", "zzLCM", "zzExGCD", "zzJacobi"):
+        for i in range(ctx.params["per"]):
+            n = t.length(i)
+            A, cls, keycls = gen_zz_gcd(t, f, n, i)
+            al = t.pick_alias(f, i, lambda al: not al or (A["m"] == A["n"] and cls.endswith("equal")))
+            # zzExGCD aborts on an internal ASSERT for many admissible pairs on the current tree: forked child
+            t.drive(f, A, cls, al, keycls, isolate=20 if f == "zzExGCD" else 0)
+    t.finish()
+
+
+# ----------------------------------------------------------------------------------------------
+# zz.h: modular arithmetic
+# ----------------------------------------------------------------------------------------------
+
+ZZ_MOD_FNS = ("zzAddMod", "zzAddWMod", "zzSubMod", "zzSubWMod", "zzNegMod", "zzMulMod", "zzMulWMod", "zzSqrMod",
+              "zzInvMod", "zzDivMod", "zzDoubleMod", "zzHalfMod", "zzAlmostInvMod")
+_ODD_MOD = ("zzInvMod", "zzDivMod", "zzHalfMod", "zzAlmostInvMod")
+# functions whose header does not require mod[n - 1] != 0
+_TOP_ZERO_OK = ("zzAddMod", "zzAddWMod", "zzSubWMod", "zzDoubleMod")
+
+
+def gen_zz_mod(t, f, n, i):
+    rng, bw, B = t.ctx.rng, t.bw, t.B
+    n = max(n, 1)
+    nm = n
+    topzero = f in _TOP_ZERO_OK and n >= 2 and rng.randrange(8) == 0
+    if topzero:
+        nm = rng.randrange(1, n)
+    lm, mod = modulus(rng, nm, bw, odd=f in _ODD_MOD)
+    if topzero:
+        lm = "mod-top-word-zero"
+    la, a = below(rng, mod, n, bw)
+    lb, b = below(rng, mod, n, bw)
+    k = rng.randrange(8)
+    if k == 0:
+        lb, b = "a+b=mod", (mod - a) % mod
+    elif k == 1:
+        lb, b = "a+b=mod-1", (mod - 1 - a) % mod
+    elif k == 2:
+        lb, b = "a+b=mod+1", (mod + 1 - a) % mod
+    elif k == 3:
+        lb, b = "b=a", a
+    elif k == 4:
+        lb, b = "b=a+1", (a + 1) % mod
+    cls = "zz_mod/" + (lm if i % 2 else la if i % 4 else lb)
+    keycls = None
+    A = {"a": a, "mod": mod, "n": n}
+    if f in ("zzAddMod", "zzSubMod", "zzMulMod"):
+        A["b"] = b
+    elif f in ("zzAddWMod", "zzSubWMod"):
+        wmax = min(B, mod)                                                   # \pre w < mod
+        A["w"] = rng.choice((0, 1 % wmax, wmax - 1, wmax - 1, rng.randrange(wmax), (mod - a) % mod % wmax, a % wmax,
+                             (mod - a) if mod - a < wmax else 0))
+        if f == "zzAddWMod" and a + A["w"] == mod:
+            keycls, cls = "a+w=mod", "zz_mod/a+w=mod"
+    elif f == "zzMulWMod":
+        A["w"] = word(rng, bw)
+    elif f in ("zzInvMod", "zzDivMod", "zzAlmostInvMod"):
+        # a == 0 never returns from zzDivMod/zzInvMod on the current tree (see unit_probe) and violates \pre of
+        # zzAlmostInvMod; for mod == 1 no other a exists
+        if mod == 1:
+            mod = A["mod"] = 3
+            a = a % 3
+        if k == 5:
+            g = rng.choice((3, 5, 7, 9, 15, 255))
+            if mod % g == 0 and mod > g:
+                a = g * max(rng.randrange(mod // g), 1)
+        if a == 0:
+            a = 1
+        A["a"] = a
+        if math.gcd(a, mod) != 1:
+            keycls = "gcd!=1"
+            cls = "zz_mod/gcd!=1"
+        if f == "zzDivMod":
+            A["divident"] = b
+    return A, cls, keycls
+
+
+class Tape:
+    """deterministic gen_i: hands out the octets of a fixed tape, then zeros"""
+    PROTO = ctypes.CFUNCTYPE(None, ctypes.c_void_p, ctypes.c_size_t, ctypes.c_void_p)
+
+    def __init__(self, data):
+        self.data, self.pos, self.calls = data, 0, 0
+        self.cb = self.PROTO(self._gen)
+        self.addr = ctypes.cast(self.cb, ctypes.c_void_p).value
+
+    def _gen(self, buf, count, state):
+        chunk = self.data[self.pos:self.pos + count]
+        chunk += b"\0" * (count - len(chunk))
+        self.pos += count
+        self.calls += 1
+        if count:
+            ctypes.memmove(buf, chunk, count)
+
+
+def rand_cases(t, per):
+    """zzRandMod / zzRandNZMod with a deterministic generator: the header promises a in {0|1..mod-1} whenever
+    TRUE is returned, and a bounded number of requests"""
+    ctx, lib, rng, bw, W = t.ctx, t.lib, t.ctx.rng, t.bw, t.W
+    for f in ("zzRandMod", "zzRandNZMod"):
+        for i in range(per):
+            n = max(t.length(i), 1)
+            lm, mod = modulus(rng, n, bw)
+            if f == "zzRandNZMod" and mod == 1:
+                mod = 2                                                      # \pre mod != 1
+            l = mod.bit_length()
+            no = (l + 7) // 8
+            k = rng.randrange(6)
+            bad = bytes([0xFF]) * no                                         # trimmed to l bits: 2^l - 1 >= mod
+            good = rng.randrange(mod).to_bytes(no, "little")
+            if k == 0:
+                kind, tape = "first-candidate", good
+            elif k == 1:
+                kind, tape = "later-candidate", bad * rng.randrange(1, 6) + good
+            elif k == 2:
+                kind, tape = "never-below-mod", bad * 400
+            elif k == 3:
+                kind, tape = "all-zero", b""
+            elif k == 4:
+                kind, tape = "candidate=mod-then-mod-1", mod.to_bytes(no, "little") + (mod - 1).to_bytes(no, "little")
+            else:
+                kind, tape = "random", bytes(rng.getrandbits(8) for _ in range(no * 8))
+            if not ctx.case([f, format(mod, "x"), n, kind, tape[:4 * no]], "zz_mod/rand-" + kind):
+                continue
+            t.fn[f] += 1
+            tp = Tape(tape)
+            pm, pa, st = lib.mkw(mod, n), lib.outw(n), lib.alloc(8)
+            ret = getattr(lib, f)(pa, pm, n, tp.addr, st)
+            a = lib.rdw(pa, n)
+            det = {"mod": hex(mod), "n": n, "tape": kind, "ret": ret, "a": hex(a), "W": W}
+            if ret not in (0, 1):
+                t.violation(f + ":ret", "return value is not a bool_t flag", det)
+            if ret == 1 and a >= mod:
+                t.violation(f + ":not-reduced:" + kind, "TRUE returned but a >= mod", det)
+            if ret == 1 and f == "zzRandNZMod" and a == 0:
+                t.violation(f + ":value:" + kind, "TRUE returned but a == 0", det)
+            if lib.rdw(pm, n) != mod:
+                t.violation(f + ":input-modified", "modulus changed", det)
+            if tp.calls > 4096:
+                t.violation(f + ":unbounded", "more than 4096 generator requests", det)
+            ctx.digest(ret, a if ret else 0)
+            lib.release()
+
+
+def unit_zz_mod(ctx):
+    selftest()
+    t = T(ctx)
+    for f in ZZ_MOD_FNS:
+        for i in range(ctx.params["per"]):
+            n = t.length(i)
+            A, cls, keycls = gen_zz_mod(t, f, n, i)
+            t.drive(f, A, cls, t.pick_alias(f, i), keycls)
+    rand_cases(t, ctx.params["per"] // 2)
+    t.finish()
+
+
+# ----------------------------------------------------------------------------------------------
+# zz.h: reductions
+# ----------------------------------------------------------------------------------------------
+
+RED_FNS = ("zzRed", "zzRedCrand", "zzRedBarrStart", "zzRedBarr", "zzRedMont", "zzRedCrandMont")
+
+
+def _red_input(rng, mod, n, bw, limit):
+    """(label, a) with 0 <= a < limit <= B^2n"""
+    Rn = 1 << (bw * n)
+    k = rng.randrange(16)
+    kk = rng.choice((1, 1, 2, 3, Rn - 1, Rn - 2, Rn // 2, 1 << (bw * rng.randrange(n)), rng.randrange(1, Rn), rng.randrange(1, Rn)))
+    if k <= 3:
+        la, a = "a=k*mod", kk * mod
+    elif k == 4:
+        la, a = "a=k*mod-1", kk * mod - 1
+    elif k == 5:
+        la, a = "a=k*mod+1", kk * mod + 1
+    elif k == 6:
+        la, a = "a=limit-1", limit - 1
+    elif k == 7:
+        la, a = "a=mod*R-1", mod * Rn - 1
+    elif k == 8:
+        la, a = "a=x*y", rng.randrange(mod) * rng.randrange(mod)
+    elif k == 9:
+        la, a = "a=(mod-1)^2", (mod - 1) ** 2
+    elif k == 10:
+        la, a = rng.choice((("0", 0), ("1", 1), ("a=mod-1", mod - 1), ("a=R-1", Rn - 1), ("a=R", Rn), ("a=R+1", Rn + 1)))
+    elif k == 11:
+        la, a = "special-words", special_words(rng, 2 * n, bw)
+    elif k == 12:
+        la, a = val(rng, 2 * n, bw)
+    else:
+        la, a = "random", rng.randrange(limit)
+    if a >= limit:
+        la, a = "random", a % limit
+    if a and a % mod == 0:
+        la = "a=k*mod"
+    return la, a
+
+
+def gen_zz_red(t, f, n, i):
+    rng, bw, B = t.ctx.rng, t.bw, t.B
+    crand = "Crand" in f
+    n = max(n, 2 if crand else 1)
+    Rn = 1 << (bw * n)
+    if crand:
+        lm, mod = modulus(rng, n, bw, odd="Mont" in f, kinds=("B^n-1", "crandall", "crandall", "crandall", "std"))
+        if Rn - mod >= B:                                                    # std q is not of Crandall form
+            lm, mod = "std-p" if n * bw in STD else "crandall", (STD[n * bw][0] if n * bw in STD else Rn - 189)
+    else:
+        lm, mod = modulus(rng, n, bw, odd="Mont" in f)
+    if f == "zzRedBarrStart":
+        return {"mod": mod, "n": n}, "zz_red/" + lm, None
+    mont = "Mont" in f
+    la, a = _red_input(rng, mod, n, bw, mod * Rn if mont else Rn * Rn)
+    A = {"a": a, "mod": mod, "n": n}
+    if f == "zzRedBarr":
+        A["barr_param"] = Rn * Rn // mod                                     # = what zzRedBarrStart must produce
+    if mont:
+        A["mont_param"] = (-pow(mod, -1, B)) % B                             # wordNegInv(mod[0])
+    t.sub["red-mod:" + lm] += 1
+    return A, "zz_red/" + la, la
+
+
+def unit_zz_red(ctx):
+    selftest()
+    t = T(ctx)
+    for f in RED_FNS:
+        for i in range(ctx.params["per"]):
+            n = t.length(i)
+            A, cls, keycls = gen_zz_red(t, f, n, i)
+            t.drive(f, A, cls, (), keycls)
+    t.finish()
+
+
+# ----------------------------------------------------------------------------------------------
+# zz.h: powers
+# ----------------------------------------------------------------------------------------------
+
+def gen_zz_pow(t, f, n, i):
+    rng, bw, B = t.ctx.rng, t.bw, t.B
+    if f == "zzPowerModW":
+        mod = word(rng, bw, nz=True)
+        a = rng.choice((0, 1, mod - 1, mod, (mod + 1) % B, B - 1, rng.randrange(mod), word(rng, bw)))
+        b = rng.choice((0, 0, 1, 1, 2, 3, 4, 7, 8, B - 1, B // 2, word(rng, bw), rng.getrandbits(bw)))
+        keycls = "mod=1" if mod == 1 else "a>=mod" if a >= mod else None
+        cls = "zz_pow/w-" + ("b=0" if b == 0 else "b=1" if b == 1 else keycls or "a<mod")
+        return {"a": a, "b": b, "mod": mod}, cls, keycls
+    n = max(n, 1)
+    m = rng.choice((0, 1, 1, 1, 2, 2, 3, min(n, 4))) if n > 8 else rng.choice((0, 1, 1, 2, n, rng.randrange(0, n + 2)))
+    lm, mod = modulus(rng, n, bw)
+    la, a = below(rng, mod, n, bw)
+    lb, b = val(rng, m, bw)
+    if i % 9 == 0:
+        a, b, la = 0, 0, "0^0"
+    keycls = "mod=1" if mod == 1 else None
+    cls = "zz_pow/" + (la if la == "0^0" else "b=0" if b == 0 else ("mod-odd-" if mod % 2 else "mod-even-") + lm)
+    return {"a": a, "n": n, "b": b, "m": m, "mod": mod}, cls, keycls
+
+
+def unit_zz_pow(ctx):
+    selftest()
+    t = T(ctx)
+    for i in range(ctx.params["per"]):
+        A, cls, keycls = gen_zz_pow(t, "zzPowerMod", t.length(i), i)
+        t.drive("zzPowerMod", A, cls, (), keycls)
+    for i in range(ctx.params["per"] * 4):
+        A, cls, keycls = gen_zz_pow(t, "zzPowerModW", 1, i)
+        t.drive("zzPowerModW", A, cls, (), keycls)
+    t.finish()
+
+
+# ----------------------------------------------------------------------------------------------
+# probes: single admissible cases that the value units must avoid because the library does not survive
+# them on the current tree (each would otherwise cost a worker restart, or never return)
+# ----------------------------------------------------------------------------------------------
+
+PROBES = ("zzSqrt-deep", "zzPowerMod-deep", "wwGetBits-width0", "wwSetBits-width0", "zzInvMod-a0", "zzDivMod-a0",
+          "zzInvMod-mod1")
+
+
+def unit_probe(ctx):
+    t = T(ctx)
+    bw, B = t.bw, t.B
+    which = ctx.params["probe"]
+    if which == "zzSqrt-deep":
+        # scratch of exactly zzSqrt_deep(n) octets
+        for n in (3, 20):
+            t.drive("zzSqrt", {"a": (1 << (bw * n)) - 1, "n": n}, "probe/declared-deep", (), "declared-deep", spec="zzSqrt@deep")
+    elif which == "zzPowerMod-deep":
+        # scratch of exactly zzPowerMod_deep(n, m) octets
+        for n, mod in ((1, 7), (4, (1 << (4 * bw)) - 189)):
+            t.drive("zzPowerMod", {"a": 3, "n": n, "b": 5, "m": 1, "mod": mod}, "probe/declared-deep", (),
+                    "declared-deep", spec="zzPowerMod@deep")
+    elif which == "wwGetBits-width0":
+        # width = 0 at a word boundary: W_OF_B(pos + width) = 1 word reserved
+        t.drive("wwGetBits", {"a": 5, "n": 1, "pos": bw, "width": 0}, "probe/width=0-at-word-boundary", (), "width=0")
+    elif which == "wwSetBits-width0":
+        t.drive("wwSetBits", {"a": 5, "n": 1, "pos": bw, "width": 0, "val": 1}, "probe/width=0-at-word-boundary", (), "width=0")
+    else:
+        # a = 0 is admissible (a < mod) and the header promises b <- 0 when gcd(a, mod) != 1; mod = 1 is an odd modulus
+        f = which.split("-")[0]
+        mod = 1 if which.endswith("mod1") else 7
+        A = {"a": 0, "mod": mod, "n": 1}
+        if f == "zzDivMod":
+            A["divident"] = 3 % mod
+        t.drive(f, A, "probe/a=0", (), "mod=1" if mod == 1 else "a=0", isolate=5)
+    t.finish()
+
+
+# ----------------------------------------------------------------------------------------------
+# jobs
+# ----------------------------------------------------------------------------------------------
+
+# classes the maintainer's main() may pass to run.finish(required_classes=...)
+REQUIRED_CLASSES = (
+    "u16/0", "u16/max", "u16/single-bit", "u16/other", "u32/single-bit", "u64/single-bit", "u16/array-partial-word",
+    "u32/array-partial-word", "u64/array-partial-word", "ww/B^n-1", "ww/cmp-equal", "ww/cmp2-equal-padded",
+    "ww/shift-beyond-length", "ww/bits-straddle", "zz_add/a+b=B^n", "zz_add/a+b=B^n-1", "zz_add/sumeq-carry-lost",
+    "zz_add/max-carry", "zz_div/a=q*b+(b-1)", "zz_div/top-words-equal", "zz_div/n<m", "zz_div/sqrt-x^2",
+    "zz_gcd/fibonacci", "zz_gcd/powers-of-two", "zz_gcd/equal", "zz_gcd/coprime", "zz_gcd/zero", "zz_gcd/jacobi-a=k*b",
+    "zz_mod/mod-1", "zz_mod/crandall", "zz_mod/mod-top-word-zero", "zz_mod/gcd!=1", "zz_mod/rand-never-below-mod",
+    "zz_red/a=k*mod", "zz_red/a=mod*R-1", "zz_red/0", "zz_pow/0^0", "zz_pow/w-b=1",
+)
+
+RULE = ("one case = one call of one function (its fast edition too where there is one) on operands drawn from a boundary "
+        "catalogue x lengths 0..20 words x documented aliasing; non-trivial = distinct (function, aliasing, operands)")
+ASSUMPTIONS = [
+    "little-endian host: uNNFrom/uNNTo/wwFrom oracles read words as little-endian integers",
+    "wwShLoCarry/wwShHiCarry: the header's prose is read as a shift of the (n+1)-word value a + carry*B^n (resp. a*B + carry); "
+    "the returned word holds the last B_PER_W displaced bits",
+    "zzRandMod/zzRandNZMod: only what the header promises is judged (flag; a in range when TRUE; bounded requests), not the "
+    "way generator octets are consumed",
+    "zzSqrt and zzPowerMod value cases use a sufficient scratch size because their declared _deep() is too small on the "
+    "current tree; the declared size is exercised separately (unit_probe)",
+    "zzInvMod/zzDivMod with a = 0 are exercised only under a 5 s watchdog in a forked child (unit_probe)",
+    "word.h macros, zzMulADK (declared, not defined in the library) are not driven",
+]
+
+
+def jobs(tier, scale=1.0):
+    q = tier == "quick"
+
+    def N(qv, tv):
+        return max(1, int((qv if q else tv) * scale))
+    J = []
+
+    def add(unit, **p):
+        J.append({"unit": "c05_zz:" + unit, "params": p})
+    step = 1 if scale >= 1 else max(1, int(round(1 / scale)))
+    for k in range(4):
+        add("unit_u16", chunk=k, chunks=4, step=step, arrays=N(150, 1500))
+    for bits in (32, 64):
+        for k in range(1 if q else 4):
+            add("unit_uNN", bits=bits, chunk=k, random=N(4000, 30000), arrays=N(300, 1500))
+    for k in range(4):
+        add("unit_ww", chunk=k, per=N(500, 6000))
+    for k in range(4):
+        add("unit_zz_add", chunk=k, per=N(700, 8000))
+    for k in range(4):
+        add("unit_zz_div", chunk=k, per=N(3000, 40000))
+    for k in range(4):
+        add("unit_zz_gcd", chunk=k, per=N(800, 8000))
+    for k in range(4):
+        add("unit_zz_mod", chunk=k, per=N(700, 8000))
+    for k in range(4):
+        add("unit_zz_red", chunk=k, per=N(2500, 30000))
+    for k in range(4):
+        add("unit_zz_pow", chunk=k, per=N(500, 5000))
+    for p in PROBES:
+        add("unit_probe", probe=p)
+    return J
